@@ -250,7 +250,10 @@ def apply_op(td, op, scratch):
             td.names = op[1]
         elif k == "newsub":     # a new nested tensordict
             node = get_node(td, op[1])
-            node.set(op[2], build(op[3]))
+            sub = build(op[3])
+            if len(op) > 4 and op[4].get("consolidated"):
+                sub = sub.consolidate()     # a nested tensordict that carries its own `_consolidated` snapshot
+            node.set(op[2], sub)
         elif k == "consolidate":
             td = do_consolidate(td, op[1], scratch)
         else:
